@@ -64,7 +64,7 @@ impl PluginOpts {
         o.yomigana = rng.chance(1, 2);
         o.mecab = rng.chance(2, 3);
         if rng.chance(1, 3) {
-            let re = rng.pick(&["[a-z]+[0-9]*", "[0-9a-z-]+", "[ア-ン]{2,}", "\\p{Han}+"]).to_string();
+            let re = rng.pick(&["[a-z]+[0-9]*", "[0-9a-z-]+", "[ア-ン]{2,}", "\\p{Han}+", "a?", "[0-9]*x?"]).to_string();
             o.regex = Some((re, rng.chance(1, 2), *rng.pick(&[2usize, 4, 32])));
         }
         if path_rewrite {
